@@ -38,6 +38,7 @@ import (
 
 	"verif/harness/internal/crashenum"
 	"verif/harness/internal/evid"
+	"verif/harness/internal/httpdrv"
 	"verif/harness/internal/ops"
 	"verif/harness/internal/realdb"
 	"verif/harness/internal/refmodel"
@@ -125,12 +126,13 @@ func TestC05(t *testing.T) {
 		crashTemporaries(t, r, tmp)
 		cacheCreation(t, r, tmp)
 		runningServerBackups(t, r, tmp)
+		rejectedBodiesOverHTTP(t, r, tmp)
 		forgedKeyMaterial(t, r, tmp)
 		auditLogFiles(t, r, tmp)
 		longLivedHandle(t, r, tmp)
 		clientCacheModes(t, r, tmp)
 	}
-	r.Require("metrics_renderings_beside_the_kek", "state_directory_listings_during_an_upload", "files_scanned", "scans_after_operation", "kek_checks", "kek_checks_after_reopen", "bit_flips", "truncations", "splices", "foreign_key_opens", "tampered_opens_rejected", "crash_point_scans", "temporaries_scanned", "mode_checks", "kek_checks_after_failed_write", "kek_checks_long_lived_handle", "client_cache_mode_checks", "creating_open_calls_observed", "cache_crash_point_scans", "backup_uploads_scanned", "audit_dir_mode_checks", "external_stat_changes", "refused_writes_scanned", "forged_key_material_opens", "audit_log_rotations_while_running")
+	r.Require("rejected_request_bodies_sent", "metrics_renderings_beside_the_kek", "state_directory_listings_during_an_upload", "files_scanned", "scans_after_operation", "kek_checks", "kek_checks_after_reopen", "bit_flips", "truncations", "splices", "foreign_key_opens", "tampered_opens_rejected", "crash_point_scans", "temporaries_scanned", "mode_checks", "kek_checks_after_failed_write", "kek_checks_long_lived_handle", "client_cache_mode_checks", "creating_open_calls_observed", "cache_crash_point_scans", "backup_uploads_scanned", "audit_dir_mode_checks", "external_stat_changes", "refused_writes_scanned", "forged_key_material_opens", "audit_log_rotations_while_running")
 	r.Rule("histories of 15-25 operations with marker names and values on a state directory holding the database and a real audit log, every file scanned after every operation, KEK call counter read after every operation (also after a reopen); tamper loop on saved files: every single-bit flip, every truncation length, version-field edits, DEK/DB splices between databases under the same and under a different KEK, foreign KEKs; crash points of a save scanned for plaintext in temporaries. Distinct = (operation kind, file kind) for scans and (tamper kind, outcome)")
 }
 
@@ -906,4 +908,76 @@ func clientCacheModes(t *testing.T, r *evid.Run, tmp string) {
 		}
 		r.Distinct(fmt.Sprintf("client cache pre-existing mode %o", pre))
 	}
+}
+
+// rejectedBodiesOverHTTP: clients send requests the front door rejects - a put whose value was written as a
+// plain string instead of base64, a body cut off in the middle - each carrying a marker value, while other
+// clients are served normally. Afterwards no file in the state directory (the audit log is one of them)
+// contains a marker in any form.
+func rejectedBodiesOverHTTP(t *testing.T, r *evid.Run, tmp string) {
+	dir := filepath.Join(tmp, "rejected-http")
+	os.MkdirAll(dir, 0o700)
+	rng := r.Rand(919191)
+	aw, err := audit.NewFile(filepath.Join(dir, "audit.log"))
+	if err != nil {
+		t.Fatal(err)
+	}
+	defer aw.Close()
+	d, err := db.Open(filepath.Join(dir, "db"), realdb.DummyKey("c05rej"), aw)
+	if err != nil {
+		t.Fatal(err)
+	}
+	srv, err := httpdrv.New(d)
+	if err != nil {
+		t.Fatal(err)
+	}
+	f := scan.NewFinder()
+	const W = 8
+	var wg sync.WaitGroup
+	for w := 0; w < W; w++ {
+		addr := fmt.Sprintf("100.64.5.%d:5", w+1)
+		srv.SetWho(addr, httpdrv.Who{Login: fmt.Sprintf("c%d@verif", w), Node: "n", Rules: []refmodel.Rule{{Actions: []string{"get", "info", "put"}, Patterns: []string{"*"}}}})
+		var marks []string
+		for k := 0; k < r.N(40, 400); k++ {
+			m := fmt.Sprintf("PLAINTEXT-MARKER-%d-%d-%x", w, k, rng.Uint64())
+			marks = append(marks, m)
+			f.Add("marker "+m, []byte(m))
+		}
+		wg.Add(1)
+		go func(w int, addr string, marks []string) {
+			defer wg.Done()
+			for k, m := range marks {
+				var body string
+				switch k % 3 {
+				case 0:
+					body = fmt.Sprintf(`{"Name":"app/secret-%d","Value":%q}`, w, m) // not base64: rejected
+				case 1:
+					body = fmt.Sprintf(`{"Name":"app/secret-%d","Value":"%s`, w, m) // cut off
+				default:
+					body = fmt.Sprintf(`{"Name":"app/secret-%d","Value":[%q]}`, w, m) // wrong type
+				}
+				rep := srv.Raw("POST", "/api/put", addr, httpdrv.GoodHeaders, []byte(body))
+				r.Count("rejected_request_bodies_sent", 1)
+				if rep.Status >= 200 && rep.Status < 300 {
+					r.Violation("malformed-put-accepted", -1, fmt.Sprintf("a put with body %.60q was answered %d", body, rep.Status), nil)
+					return
+				}
+				// and ordinary traffic in between
+				srv.Do(addr, ops.Op{Kind: ops.Info, Name: "app/none"})
+				srv.Do(addr, ops.Op{Kind: ops.Put, Name: fmt.Sprintf("ok/%d", w), Value: []byte("fine")})
+			}
+		}(w, addr, marks)
+	}
+	wg.Wait()
+	aw.Sync()
+	ents, _ := os.ReadDir(dir)
+	for _, e := range ents {
+		b, _ := os.ReadFile(filepath.Join(dir, e.Name()))
+		r.Eval(1)
+		if hit, ok := f.Find(b); ok {
+			r.Violation("value-in-audit-log", -1, fmt.Sprintf("after clients sent requests the front door rejected (each carrying a marker value), the file %s in the state directory contains %s", e.Name(), hit), nil)
+			return
+		}
+	}
+	r.Distinct("rejected bodies over HTTP")
 }
